@@ -73,6 +73,7 @@ func (c *Counter[T]) Add(v T) {
 		// bits and use them directly, refilling only as needed.
 		var nb, rnd uint64
 
+		before, chosen := c.buf.Len(), 0
 		for elt := range c.buf {
 			if nb == 0 {
 				rnd = c.rng.Uint64() // refill
@@ -80,9 +81,15 @@ func (c *Counter[T]) Add(v T) {
 			}
 			if rnd&1 == 0 {
 				c.buf.Remove(elt)
+				chosen++
 			}
 			rnd >>= 1
 			nb--
+		}
+		if chosen > 0 && c.buf.Len() == before {
+			// The chosen elements cannot be removed (NaN keys are not equal to
+			// themselves): another pass would not make room either.
+			break
 		}
 		c.p >>= 1
 	}
